@@ -151,6 +151,12 @@ let () =
       else if tok_of_bool r'.r_compressed <> comp then Diff "model compressed flag differs"
       else Pass (List.length ops_l >= 3)
     | _ -> Diff "malformed line");
+  register "U8RS" (fun i o -> match i, o with
+    | [_; _; _], [a; f; x; y] ->
+      if a <> f then Viol "UTF8Reader after Reset differs from a fresh one (Valid/Accepted/bytes/error)"
+      else if x <> y then Viol "CipherReader after Reset differs from a fresh one"
+      else Pass true
+    | _ -> Diff "malformed line");
   register "U8R" (fun i o -> match i, o with
     | [p; spec; bufs], [out; e; valid; accepted] ->
       let p = bytes_of_hex p in
